@@ -6,6 +6,7 @@ input: {scenarios: [ {transports:[{kind,max_retries,initial,growth,jitter,maxdel
 outcome alphabet: refused | hsfail | abort | joined_lost | joined_leave | main_returns | main_raises
 """
 import os
+import sys
 import random
 
 from harness import fw
@@ -63,7 +64,7 @@ class World:
         proto = factory_build()
         t = fw.Transport()
         kind = self.sc["transports"][idx]["kind"]
-        conn = RouterConn(kind, proto, t, ser_id="json", fail_handshake=(out == "hsfail"))
+        conn = RouterConn(kind, proto, t, ser_id="json", fail_handshake=(("close" if (self.sc.get("seed", 0) + k) % 3 == 1 else True) if out == "hsfail" else False))
         self.conns.append(conn)
         self.pending.append([k, conn, out, "new"])
         return proto, t
@@ -162,6 +163,11 @@ def run_scenario(sc):
     last_fail = []
 
     def on_connectfailure(component, error):
+        tb = "".join(__import__("traceback").format_tb(getattr(error, "__traceback__", None)))
+        if isinstance(error, (NameError, AttributeError, TypeError)) and "comp_drv.py" in tb.splitlines()[-2 if len(tb.splitlines()) > 1 else 0:][0:1].__str__():
+            # the harness itself failed inside a connection attempt: machinery failure, not a verdict
+            sys.stderr.write("harness failure inside a connection attempt: %r\n%s" % (error, tb))
+            os._exit(3)
         k = len(world.attempts) - 1
         ev = dict(ev="fail", k=k, kind=world.outcome(k), fatal=False, err=type(error).__name__, argOk=True)
         if k in world.joined and not (ev["kind"] == "main_raises" and isinstance(error, MainBoom)):
@@ -312,7 +318,7 @@ def run_scenario(sc):
                 world.pending.remove(p)
                 p[3] = "closed"
                 log.append(dict(ev="lost", k=k))
-                conn.lose(clean=False)
+                conn.lose(clean=(conn.fail_handshake == "close"))
                 progressed = True
                 continue
             for m in msgs:
